@@ -86,12 +86,12 @@ func (e *Expr) UnmarshalJSON(b []byte) error {
 	return nil
 }
 
-func eNum(n, d int) *Expr            { return &Expr{K: "num", N: n, D: d} }
-func eBool(b bool) *Expr             { return &Expr{K: "bool", B: b} }
-func eStr(s string) *Expr            { return &Expr{K: "str", S: s} }
-func eVar(v string) *Expr            { return &Expr{K: "var", S: v} }
-func eNeg(a *Expr) *Expr             { return &Expr{K: "neg", A: a} }
-func eNot(a *Expr) *Expr             { return &Expr{K: "not", A: a} }
+func eNum(n, d int) *Expr              { return &Expr{K: "num", N: n, D: d} }
+func eBool(b bool) *Expr               { return &Expr{K: "bool", B: b} }
+func eStr(s string) *Expr              { return &Expr{K: "str", S: s} }
+func eVar(v string) *Expr              { return &Expr{K: "var", S: v} }
+func eNeg(a *Expr) *Expr               { return &Expr{K: "neg", A: a} }
+func eNot(a *Expr) *Expr               { return &Expr{K: "not", A: a} }
 func eBin(op string, l, r *Expr) *Expr { return &Expr{K: "bin", Op: op, L: l, R: r} }
 func eCall(fn string, args ...*Expr) *Expr {
 	return &Expr{K: "call", S: fn, Args: args}
@@ -100,7 +100,7 @@ func eNone() *Expr { return &Expr{K: "none"} }
 
 // eSpecial: a number outside the window (inf neginf nan huge neghuge big negbig), see spec/YarnExpr.tla
 func eSpecial(c string) *Expr { return &Expr{K: "special", S: c} }
-func eNull() *Expr { return &Expr{K: "null"} }
+func eNull() *Expr            { return &Expr{K: "null"} }
 
 // Part is one element of a line's text: a literal or an inline expression.
 type Part struct {
